@@ -64,3 +64,26 @@ package ecs
 //@   ensures  cap: t.cap == cap && t.len == old(t.len)
 //@   ensures  rows: forall r uint32 :: __trigger(rowEnt(t)[r]) && (r < t.len ==> rowEnt(t)[r] == old(rowEnt(t)[r]))
 //@   modifies t.cap, rowEnt(t)[*], t.entities.pointer, t.entities.data, t.columns[*]
+
+// Capacity reduction (C15): after Shrink the capacity is at least the size and at most the
+// larger of the given minimum and the next power of two of the size; rows are preserved.
+
+//@ func (*table).CanShrink
+//@   serves C15
+//@   requires t.len <= 1<<31
+//@   ensures  value: result == (t.cap > max(capPow2(t.len), minCapacity))
+//@   modifies nothing
+
+//@ func (*table).Shrink
+//@   serves C15 C11
+//@   requires t.len <= 1<<31 && t.len <= t.cap
+//@   ensures  noop: !result ==> t.cap == old(t.cap) && t.cap <= max(capPow2(t.len), minCapacity)
+//@   ensures  shrunk: result ==> t.cap == max(capPow2(t.len), minCapacity) && t.cap < old(t.cap)
+//@   ensures  bounds: t.len == old(t.len) && t.len <= t.cap
+//@   ensures  rows: forall r uint32 :: r < t.len ==> rowEnt(t)[r] == old(rowEnt(t)[r])
+
+//@ func (*table).Extend
+//@   serves C01 C15
+//@   requires t.len <= t.cap && uint64(t.len) + uint64(by) <= 1<<31
+//@   ensures  room: uint64(t.cap) >= uint64(t.len) + uint64(by) && t.len == old(t.len)
+//@   ensures  rows: forall r uint32 :: r < t.len ==> rowEnt(t)[r] == old(rowEnt(t)[r])
